@@ -230,7 +230,7 @@ func holdsLock(point string) bool {
 func (w *World) runForced(c Case) {
 	req, ok := w.reach(c.Point)
 	if !ok {
-		close(req.release)
+		w.releasePark(req)
 		return
 	}
 	blocks := func(op string) bool { return op == "close" || (holdsLock(c.Point) && op[0] != 'a') }
@@ -256,7 +256,7 @@ func (w *World) runForced(c Case) {
 			w.add(Ev{Kind: "hang", P: "op-" + c.Op})
 		}
 	}
-	close(req.release)
+	w.releasePark(req)
 	select {
 	case <-done:
 		if pv != nil {
@@ -286,7 +286,7 @@ func (w *World) runClose2() {
 	g1 := make(chan struct{})
 	go func() { defer close(g1); defer func() { recover() }(); w.enqueue(1, 0) }()
 	if !wait(r1.parked, "reach-enqueue.afterStoppedCheck") {
-		close(r1.release)
+		w.releasePark(r1)
 		return
 	}
 	r2 := &parkReq{name: "close.afterCAS", parked: make(chan struct{}), release: make(chan struct{})}
@@ -299,8 +299,8 @@ func (w *World) runClose2() {
 		w.add(Ev{Kind: "closeret"})
 	}()
 	if !wait(r2.parked, "reach-close.afterCAS") {
-		close(r1.release)
-		close(r2.release)
+		w.releasePark(r1)
+		w.releasePark(r2)
 		return
 	}
 	g3 := make(chan struct{})
@@ -314,10 +314,10 @@ func (w *World) runClose2() {
 	case <-g3:
 	case <-time.After(4 * time.Millisecond): // it (rightly) waits for the first Close
 	}
-	close(r1.release)
+	w.releasePark(r1)
 	wait(g1, "enqueue")
 	w.settle(50 * time.Millisecond)
-	close(r2.release)
+	w.releasePark(r2)
 	wait(g2, "close")
 	wait(g3, "close2")
 }
